@@ -4,6 +4,7 @@ CONSTANTS
   DEV_PartialIntersection = FALSE
   DEV_PartialNetwork = FALSE
   DEV_AddNetOnNonEmpty = FALSE
+  DEV_HangingFreesNamedIds = FALSE
   MaxGen = 1
   Universe = {"LA","LC","LD","SA","TA","XA","XB","OS","OD","NA","NC"}
 VIEW View
